@@ -11,7 +11,7 @@
    Categorical: row-wise hand model (Model.v), for rows of ANY length. *)
 From Coq Require Import Reals Lra List QArith.
 From Coquelicot Require Import Coquelicot.
-Require Import NV.Base.RealExpr NV.C12.Model NV.C12.Gen_Lh NV.C12.Proofs NV.C12.ProofsCat.
+Require Import NV.Base.RealExpr NV.C12.Model NV.C12.Gen_Lh NV.C12.Proofs NV.C12.ProofsCat NV.C12.ProofsPoisson NV.Base.LhCombinators.
 Import ListNotations.
 Open Scope R_scope.
 
@@ -208,6 +208,51 @@ Theorem C12_categorical_batchsum_refuted :
   qclose 0 (qcat_metric_batchsum wit_p wit_v) (qcat_metric wit_p wit_v) = false /\
   qclose 0 (qcat_metric wit_p wit_v) [[1#4; -1#4]; [1#4; -1#4]] = true.
 Proof. exact batchsum_refuted. Qed.
+
+(* ---- operator-level composition rules, for ALL spaces, maps and pairings (Base/LhCombinators.v) ----
+   [factored K ipV ipW M L R] := (forall v, M v = L (R v)) /\ (forall w v, ipV (L w) v = ipW w (R v)),
+   i.e. M = L o R and R = L^dagger. *)
+Theorem C12_amend :
+  forall (K V W X : Type) (ipV : V -> V -> K) (ipW : W -> W -> K) (ipX : X -> X -> K)
+         (M : V -> V) (L : W -> V) (R : V -> W) (J : X -> V) (Jt : V -> X),
+    (forall (v : V) (x : X), ipX (Jt v) x = ipV v (J x)) ->
+    factored K ipV ipW M L R ->
+    factored K ipX ipW (amend_M V X M J Jt) (amend_L V W X L Jt) (amend_R V W X R J) /\
+    (forall x y : X, ipX (amend_M V X M J Jt x) y = ipV (M (J x)) (J y)).
+Proof. exact amend_rules. Qed.
+
+Theorem C12_sum :
+  forall (K : Type) (kadd : K -> K -> K) (V W1 W2 : Type) (vadd : V -> V -> V) (ipV : V -> V -> K)
+         (ipW1 : W1 -> W1 -> K) (ipW2 : W2 -> W2 -> K),
+    (forall a b v : V, ipV (vadd a b) v = kadd (ipV a v) (ipV b v)) ->
+    forall (M1 : V -> V) (L1 : W1 -> V) (R1 : V -> W1) (M2 : V -> V) (L2 : W2 -> V) (R2 : V -> W2),
+    factored K ipV ipW1 M1 L1 R1 -> factored K ipV ipW2 M2 L2 R2 ->
+    factored K ipV (ipW12 K kadd W1 W2 ipW1 ipW2) (sum_M V vadd M1 M2) (sum_L V W1 W2 vadd L1 L2) (sum_R V W1 W2 R1 R2).
+Proof. exact sum_factored. Qed.
+
+(* freezing = amend with J = insertion of zero tangents for the frozen inputs, J^dagger = removal of the
+   frozen outputs: the frozen metric is the principal sub-block rem o M o ins, L keeps the liquid rows *)
+Theorem C12_freeze :
+  forall (K V W V1 : Type) (ipV : V -> V -> K) (ipW : W -> W -> K) (ip1 : V1 -> V1 -> K)
+         (M : V -> V) (L : W -> V) (R : V -> W) (ins : V1 -> V) (rem : V -> V1),
+    (forall (v : V) (x : V1), ip1 (rem v) x = ipV v (ins x)) ->
+    factored K ipV ipW M L R ->
+    factored K ip1 ipW (fun x => rem (M (ins x))) (fun w => rem (L w)) (fun x => R (ins x)).
+Proof. exact freeze_factored. Qed.
+
+(* the generated Poisson pixel is an instance, so the rules above apply to it (non-vacuity) *)
+Example C12_poisson_instance :
+  forall x, 0 < x -> factored R Rmult Rmult (poisson_M x) (poisson_L x) (poisson_L x).
+Proof. exact poisson_instance. Qed.
+
+(* Poisson Fisher information as a convergent series over the data (replaces the hypothesis E[d] = x):
+   total mass 1, zero-mean score, sum_d Poisson(d|x) Hessian(d, x) = M(x) 1 *)
+Theorem C12_poisson_fisher_series :
+  forall x, 0 < x ->
+    is_series (fun d : nat => poisson_pmf d x) 1 /\
+    is_series (fun d : nat => poisson_pmf d x * (1 - INR d / x)) 0 /\
+    is_series (fun d : nat => poisson_pmf d x * poisson_hess (INR d) x) (poisson_M x 1).
+Proof. exact poisson_fisher_series. Qed.
 
 (* non-vacuity of the moment hypotheses *)
 Example C12_expectation_satisfiable :
